@@ -2,6 +2,7 @@ package leader
 
 import (
 	"context"
+	"sync"
 	"time"
 
 	"github.com/nats-io/nats.go"
@@ -464,22 +465,28 @@ func (a *natsKeyValueAdapter) Watch(key string, opts ...interface{}) (Watcher, e
 }
 
 type natsWatcherAdapter struct {
-	watcher nats.KeyWatcher
+	watcher   nats.KeyWatcher
+	once      sync.Once
+	entryChan chan Entry
 }
 
+// Updates returns the channel of the watcher. The channel and its forwarding goroutine are
+// created once: the watch loop asks for the channel on every iteration.
 func (a *natsWatcherAdapter) Updates() <-chan Entry {
-	entryChan := make(chan Entry, 1)
-	go func() {
-		defer close(entryChan)
-		for natsEntry := range a.watcher.Updates() {
-			if natsEntry != nil {
-				entryChan <- &natsEntryAdapter{entry: natsEntry}
-			} else {
-				entryChan <- nil
+	a.once.Do(func() {
+		a.entryChan = make(chan Entry, 1)
+		go func() {
+			defer close(a.entryChan)
+			for natsEntry := range a.watcher.Updates() {
+				if natsEntry != nil {
+					a.entryChan <- &natsEntryAdapter{entry: natsEntry}
+				} else {
+					a.entryChan <- nil
+				}
 			}
-		}
-	}()
-	return entryChan
+		}()
+	})
+	return a.entryChan
 }
 
 func (a *natsWatcherAdapter) Stop() {
